@@ -402,6 +402,7 @@ type TrackingAllocator struct {
 	FailNewBlock int
 	Violations []string
 	Releases   int // Block.Release calls made by the block list (volatile: pops)
+	ReleaseTimes []time.Time // virtual time of each such call
 	// LastWrittenState returns the most recent durably written state (persistent only).
 	LastWrittenState func() *pb.PersistentState
 	RBF       *TrackingRBF
@@ -581,6 +582,7 @@ func (b *trackedBlock) Release() {
 	}
 	b.released = true
 	b.a.Releases++
+	b.a.ReleaseTimes = append(b.a.ReleaseTimes, vsched.Now())
 	b.Block.Release()
 	if b.region != nil && b.region.Incarnation == b.inc {
 		b.region.InList = false
